@@ -298,10 +298,10 @@ RESET_CORE_ENSURES = [
     'final(self).quality_cache == old(self).quality_cache',
     C('C06+C08.acct.reset_core_state.window_back_to_20000', 'final(self).window == 20000'),
     C('C02+C08.acct.reset_core_state.nothing_in_flight', 'final(self).in_flight_packets == 0 && final(self).packet_log@.len() == 0 && final(self).highest_acked_seq == i32::MIN'),
-    C('C08.acct.reset_core_state.back_to_registering', '!final(self).connected && final(self).phase is Registering'),
+    C('C07+C08.acct.reset_core_state.back_to_registering', '!final(self).connected && final(self).phase is Registering'),
     C('C13.acct.reset_core_state.clears_stall_state', '''final(self).last_ack_or_rtt_sample_ms == 0 && !final(self).stall_gated && final(self).stall_latched_since_ms == 0
             && final(self).stall_recovery_since_ms == 0 && !final(self).silence_pulled && final(self).stall_probe_counter == 0'''),
-    C('C01.acct.reset_core_state.queue_dropped', 'final(self).batch_sender.queue.len() == 0 && final(self).batch_sender.wf()'),
+    C('C01+C04.acct.reset_core_state.queue_dropped', 'final(self).batch_sender.queue.len() == 0 && final(self).batch_sender.wf()'),
     'final(self).wf()',
     'final(self).conn_id == old(self).conn_id', 'final(self).reconnection == old(self).reconnection', 'final(self).last_received == old(self).last_received',
     'final(self).congestion == old(self).congestion', 'final(self).stall_gate_events == old(self).stall_gate_events', 'final(self).silence_pulls == old(self).silence_pulls',
@@ -313,17 +313,17 @@ def RESET_CORE_ENSURES_PUBLIC(who):
     return [
         C('C06+C08.acct.%s.window_back_to_20000' % who, 'final(self).window == 20000'),
         C('C02+C08.acct.%s.nothing_in_flight' % who, 'final(self).in_flight_packets == 0 && final(self).packet_log@.len() == 0 && final(self).highest_acked_seq == i32::MIN'),
-        C('C08.acct.%s.back_to_registering' % who, '!final(self).connected && final(self).phase is Registering'),
+        C('C07+C08.acct.%s.back_to_registering' % who, '!final(self).connected && final(self).phase is Registering'),
         C('C13.acct.%s.clears_stall_state' % who, '''final(self).last_ack_or_rtt_sample_ms == 0 && !final(self).stall_gated && final(self).stall_latched_since_ms == 0
             && final(self).stall_recovery_since_ms == 0 && !final(self).silence_pulled'''),
-        C('C01.acct.%s.queue_dropped' % who, 'final(self).batch_sender.queue.len() == 0 && final(self).batch_sender.wf()'),
+        C('C01+C04.acct.%s.queue_dropped' % who, 'final(self).batch_sender.queue.len() == 0 && final(self).batch_sender.wf()'),
         'final(self).wf()', 'final(self).stall_probe_counter == 0', 'final(self).quality_cache == old(self).quality_cache',
     ]
 
 
 # ------------------------------------------------------------------ ACK / NAK accounting (C02, C05, C06)
 SRT_ACK_ENSURES = [
-    C('C02.acct.handle_srt_ack.count_equals_set', 'final(self).wf_count()'),
+    C('C02+C05.acct.handle_srt_ack.count_equals_set', 'final(self).wf_count()'),
     C('C02.acct.handle_srt_ack.retires_everything_at_or_below_ack', '''old(self).above_hw() && ack > old(self).highest_acked_seq ==>
             (forall|k: i32| (#[trigger] final(self).packet_log@.contains_key(k)) <==> (old(self).packet_log@.contains_key(k) && k > ack))
             && (forall|k: i32| (#[trigger] final(self).packet_log@.contains_key(k)) ==> final(self).packet_log@[k] == old(self).packet_log@[k])
@@ -354,7 +354,7 @@ NAK_ENSURES = [
     C('C02+C05.acct.handle_nak.found_iff_held', 'found == old(self).packet_log@.contains_key(seq)'),
     C('C02.acct.handle_nak.removes_exactly_seq', 'final(self).packet_log@ == old(self).packet_log@.remove(seq)'),
     C('C02+C05.acct.handle_nak.unknown_seq_changes_nothing', '!found ==> final(self).same_except_log(old(self)) && final(self).packet_log@ == old(self).packet_log@'),
-    C('C02.acct.handle_nak.count_equals_set', 'final(self).wf_count()'),
+    C('C02+C05.acct.handle_nak.count_equals_set', 'final(self).wf_count()'),
     C('C05+C06+C10.acct.handle_nak.charge_is_minus_100_floor_1000', 'found ==> final(self).window == (if old(self).window - 100 >= 1000 { old(self).window - 100 } else { 1000 })'),
     C('C05.acct.handle_nak.one_loss_count', 'found ==> final(self).congestion.nak_count == sat_i32(old(self).congestion.nak_count + 1)'),
     C('C05.acct.handle_nak.one_in_flight_slot', 'found ==> final(self).in_flight_packets == old(self).in_flight_packets - 1'),
@@ -369,7 +369,7 @@ SRTLA_ACK_ENSURES = [
     C('C02.acct.handle_srtla_ack_specific.found_iff_held', 'found == old(self).packet_log@.contains_key(seq)'),
     C('C02.acct.handle_srtla_ack_specific.removes_exactly_seq', 'final(self).packet_log@ == old(self).packet_log@.remove(seq)'),
     C('C02.acct.handle_srtla_ack_specific.unknown_seq_changes_nothing', '!found ==> final(self).same_except_log(old(self)) && final(self).packet_log@ == old(self).packet_log@'),
-    C('C02.acct.handle_srtla_ack_specific.count_equals_set', 'final(self).wf_count()'),
+    C('C02+C05.acct.handle_srtla_ack_specific.count_equals_set', 'final(self).wf_count()'),
     C('C09+C13.acct.handle_srtla_ack_specific.delivery_proof_stamped_iff_earned',
       'final(self).last_ack_or_rtt_sample_ms == (if found { now_ms } else { old(self).last_ack_or_rtt_sample_ms })'),
     C('C06+C10.acct.handle_srtla_ack_specific.plus_29_only_when_inflight_exceeds_window',
